@@ -746,6 +746,8 @@ def _sbml_to_model(
                 cobra_gene.name = gid
             cobra_gene.annotation = _parse_annotations(gp)
             cobra_gene.notes = _parse_notes_dict(gp)
+            # A gene that no reaction uses is otherwise never told about its model.
+            cobra_gene._model = cobra_model
 
             cobra_model.genes.append(cobra_gene)
     else:
